@@ -233,3 +233,9 @@ func VH_C08_WriteHeterogeneousStyles() {
 	}
 	vreach("end")
 }
+
+// C08 for the teletext reader: the framing harnesses of C06 (arbitrary PES payloads; data units of every declared
+// length with symbolic id, address and framing bytes, from a receiving and a non-receiving buffer) also decide the
+// "never panics" clause of C08, so they run under both properties.
+func VH_C08_TeletextFraming()   { VH_C06_Framing() }
+func VH_C08_TeletextDataUnits() { VH_C06_DataUnits() }
